@@ -22,6 +22,8 @@ package main
 //      its scope, not captured, address never taken) is removed and x is renamed to y.
 //   D  tuple assignments (c16tuple.go): `var a T; a, x.f = call()` becomes `a, f1 := call(); x.f = f1`.
 //   E  named results of new helpers become locals (c16tuple.go), so that the inliner accepts the helper.
+//   F  a labelled one-shot switch (the inliner's form of `return` inside a helper's loop) whose last statement is the
+//      loop all its `break L` sit in becomes a block with plain breaks (c16unswitch.go).
 //
 // Nothing is executed; anything the passes are not sure about is left as it is. If the rewritten program does not
 // type-check, the program is loaded again and analysed with the c15 normalisation only.
@@ -60,7 +62,7 @@ func c16Normalise(c *Ctx) {
 			for _, pass := range []struct {
 				name string
 				f    func(c *Ctx, pk *packages.Package, file *ast.File, fd *ast.FuncDecl, counter *int) bool
-			}{{"beta", c16ReduceFuncValues}, {"lift", c16LiftClosures}, {"sroa", c16SplitStructs}, {"coalesce", c16CoalesceCopies}, {"tuple", c16SplitTupleStores}, {"unname", c16UnnameResults}} {
+			}{{"beta", c16ReduceFuncValues}, {"lift", c16LiftClosures}, {"sroa", c16SplitStructs}, {"coalesce", c16CoalesceCopies}, {"tuple", c16SplitTupleStores}, {"unname", c16UnnameResults}, {"unswitch", c16UnswitchLoops}} {
 				for _, sh := range c16NormShorts {
 					pk := c.P.Pkg(sh)
 					if pk == nil {
